@@ -359,6 +359,19 @@ def _evaluate(e, env, bits=64):
             return 2.0 ** float(args[0])
         if name == "saturating_sub":
             return max(args[0] - args[1], 0)
+        if name in ("is_finite", "is_nan", "is_infinite") and len(args) == 1 and isinstance(args[0], (int, float)):
+            import math
+            x_ = float(args[0])
+            return int(math.isfinite(x_) if name == "is_finite" else (math.isnan(x_) if name == "is_nan" else math.isinf(x_)))
+        if name in ("eq", "ne") and len(args) == 2 and all(isinstance(a, (int, float)) for a in args):
+            return int((args[0] == args[1]) == (name == "eq"))
+        if name in ("saturating_add", "saturating_mul") and len(args) == 2 and all(isinstance(a, int) for a in args):
+            import re as _re
+            m_ = _re.search(r"<impl (u|i)(\d+|size)>", e[1])
+            if m_ and m_.group(1) == "u":
+                w_ = 64 if m_.group(2) == "size" else int(m_.group(2))
+                r_ = args[0] + args[1] if name == "saturating_add" else args[0] * args[1]
+                return min(r_, (1 << w_) - 1)
         if name == "next_power_of_two" and len(args) == 1 and isinstance(args[0], int):
             return 1 if args[0] <= 1 else 1 << (args[0] - 1).bit_length()
         if name == "is_power_of_two" and len(args) == 1 and isinstance(args[0], int):
@@ -438,7 +451,7 @@ def leaves(e):
     return res
 
 
-_PURE = ("min", "max", "leading_zeros", "trailing_zeros", "wrapping_mul", "wrapping_add", "wrapping_sub", "rotate_left", "div_ceil",
+_PURE = ("eq", "ne", "is_finite", "is_nan", "is_infinite", "min", "max", "leading_zeros", "trailing_zeros", "wrapping_mul", "wrapping_add", "wrapping_sub", "rotate_left", "div_ceil",
          "sqrt", "ceil", "floor", "ln", "log2", "powf", "exp2", "saturating_sub")
 
 
@@ -448,6 +461,10 @@ def top_leaves(e):
 
     def go(x):
         if not isinstance(x, tuple) or not x:
+            return
+        if not isinstance(x[0], str):
+            for z in x:
+                go(z)
             return
         if x[0] in ("param", "field", "var", "index", "len", "static", "discr", "fieldat") or (x[0] == "call" and x[1].rsplit("::", 1)[-1] not in _PURE):
             out[leaf_key(x)] = x
